@@ -29,6 +29,9 @@ func init() {
 		{"C11", "bufviews", props.BufViews},
 		{"C10", "bufviews", props.BufViews},
 		{"C02", "bufviews", props.BufViews},
+		{"C07", "adder", props.C07adder},
+		{"C09", "adder", props.C07adder},
+		{"C03", "adder", props.C07adder},
 		{"C19", "notify", props.NotifyBuffered("p2p")},
 		{"C10", "notify", props.NotifyBuffered("gmw", "p2p")},
 		{"C10", "needspace", props.NeedSpaceBounded},
